@@ -54,7 +54,10 @@ RULE = ("case = (public entry point, sizes, variant, dtype, memory layout, "
         "x all 4 dtypes); random: Hypothesis draws entry point, sizes 0..max "
         "(N and T independent, so N > T and N < T both occur), dtype in "
         "f8/f4/i8/b1, layout in contiguous / a[..., ::2] / a.T / a[::-1], "
-        "value class in random/constant/tied/NaN/huge, seeds. Non-trivial = "
+        "value class in random/constant/tied/NaN/huge, seeds; long: every "
+        "entry point with a time axis at 130 / 700-1100 (quadratic cost) or "
+        "130 / 1030 / 3000 (thorough: up to 6000) samples, other sizes 1-3. "
+        "Non-trivial = "
         "the call reached a compiled kernel AND (some size <= 1 OR more "
         "nodes than samples); distinct = hash of the whole case."
         % len(aw.ENTRIES))
@@ -362,6 +365,7 @@ def oracle(case, rec):
     if st_ == "timeout":
         STATS["timeouts"] += 1
         rec.label("outcome:timeout_inconclusive")
+        rec.label("timeout:%s" % entry)
         return
     if st_ == "crash":
         rep = res.get("report")
@@ -549,6 +553,53 @@ def run_grid(ctx):
     _finish(ctx)
 
 
+# entry points whose cost grows faster than linearly with the series length
+_QUADRATIC = ("rp_", "crp_", "surr_embed", "surr_twin", "visibility",
+              "ca_mutual_information",
+              "ca_information_transfer", "ca_get_nearest_neighbors")
+
+
+def long_cases(tier, seed):
+    """Long time axes (every other size small): work arrays sized from the
+    series length - alloca / fixed scratch buffers / per-sample tables - only
+    show beyond a few hundred or thousand samples."""
+    off = _off(seed)
+    for name in aw.ENTRY_NAMES:
+        e = aw.ENTRIES[name]
+        tdims = [k for k, (dn, _) in enumerate(e["dims"])
+                 if dn in ("T", "Tx", "Ty")]
+        if not tdims:
+            continue
+        if name.startswith(_QUADRATIC):
+            lengths = (130, 700) if tier == "quick" else (130, 700, 1100)
+        else:
+            lengths = (130, 1030, 3000) if tier == "quick" else \
+                (130, 1030, 2049, 3000, 4097, 6000)
+        for T in lengths:
+            for p in range(e["variants"]):
+                d = []
+                for k, (dn, hi) in enumerate(e["dims"]):
+                    if k in tdims:
+                        d.append(T)
+                    elif dn in ("N", "N2", "D", "dim", "k", "M"):
+                        d.append(min(hi, 2 + (p + T) % 2))
+                    elif dn == "n_bins":
+                        d.append(min(hi, 4))
+                    else:
+                        d.append(1)
+                yield {"entry": name, "d": d, "p": p, "dtype": "f8",
+                       "layout": "c", "vc": "random",
+                       "vs": (off + T + 17 * p) % 65536,
+                       "s1": (off + T) % 100000, "s2": (off + p) % 100000}
+
+
+def run_long(ctx):
+    _begin(ctx)
+    pbt.run_enum(ctx, long_cases(ctx.tier, ctx.seed), oracle, cap=ctx.n)
+    _confirm_fresh(ctx)
+    _finish(ctx)
+
+
 def _fails_clause(case, clause):
     rec = pbt.evaluate(oracle, case)
     for c, d in rec.fails:
@@ -647,6 +698,8 @@ SUBCHECKS = [
              thorough=(1, None), timeout=(900, 3600)),
     SubCheck("grid", oracle, run=run_grid, quick=(13, None),
              thorough=(15, None), timeout=(900, 14400)),
+    SubCheck("long", oracle, run=run_long, quick=(8, None),
+             thorough=(12, None), timeout=(1500, 14400)),
     SubCheck("random", oracle, run=run_random, quick=(2, 900),
              thorough=(12, 3500), timeout=(900, 14400)),
 ]
